@@ -73,7 +73,9 @@ class RefCookie:
             return "accept", 0, "no-cookie-requested"
         if resp_cookie is not None and resp_cookie[:8] != req_cookie[:8]:
             return "drop", 0, "bad-client-part"
-        if resp_cookie is not None and len(resp_cookie) > 8:
+        if resp_cookie is not None and len(resp_cookie) > 8 and self.state in ("generated", "supported"):
+            # support is only recorded while a client cookie is in use (a reply that arrives after a reset must not
+            # leave the client in SUPPORTED with the all-zero cookie of the cleared state)
             self.state = "supported"
             self.unsup_ts = None
             if self.client == req_cookie[:8]:
@@ -236,12 +238,13 @@ def mon_cookie(case, out):
     qs = {}
     now = 1000 * 1000000
     last_client = {}
+    fresh_seen = {}
     for line, o in zip(case, out):
         t = line.split()
         if not t:
             continue
         if t[0] == "chan":
-            ref, qs, last_client = {}, {}, {}
+            ref, qs, last_client, fresh_seen = {}, {}, {}, {}
         elif t[0] == "time" and len(t) == 3:
             now = int(t[1]) * 1000000 + int(t[2])
         elif t[0] == "adv" and len(t) == 2:
@@ -256,6 +259,11 @@ def mon_cookie(case, out):
             prev_client = r.client if r.state in ("generated", "supported") else None
             exp, cause = r.apply(q["req"] != "noopt", tcp, t[3], now, bytes.fromhex(t[5]))
             got = o.split()[0][len("cookie="):]
+            gb = _unspec(got)
+            if gb not in (None, "noopt") and gb[:8] not in fresh_seen.setdefault(srv, set()) | {bytes.fromhex(t[5])}:
+                return [("client-cookie-not-random", "%s: client part %s was never drawn from the RNG for this server"
+                         % (line, gb[:8].hex()))]
+            fresh_seen.setdefault(srv, set()).add(bytes.fromhex(t[5]))
             if got != _spec(exp):
                 g = _unspec(got)
                 if tcp and g not in (None, "noopt"):
